@@ -655,9 +655,19 @@ class Exec:
 
     def _havoc(self, body, env, fr, spec):
         names = set(spec.modifies) if spec.modifies is not None else modified_names(body)
+        mutated = mutated_names(body)
         for n in names:
             if n in env:
-                env[n] = self.havoc_value(env[n], n, in_place=True)
+                v = env[n]
+                if isinstance(v, Arr) and n not in mutated:
+                    # the NAME is re-bound in the body (e.g. it is a loop target), the object it pointed to is not written:
+                    # bind a new arbitrary array and leave the old object (possibly a parameter, or being iterated) alone
+                    shape = [z3.Int(fresh_name(f"{n}_dim{d}")) for d in range(v.rank)]
+                    for sdim in shape:
+                        self.assume(sdim >= 0)
+                    env[n] = Arr.fresh(n, shape if v.base is None else list(v.shape), v.kind, ghost=dict(v.ghost))
+                    continue
+                env[n] = self.havoc_value(v, n, in_place=True)
         for g in list(self.st.ghostvars):
             if spec.modifies is None or g in names:
                 if any(g in x for x in spec.ghost_step):
@@ -1265,6 +1275,10 @@ class Exec:
             return v
         if isinstance(base, ListMap):
             (k,) = idx
+            if getattr(self, "_spec_depth", 0) == 0 and kind_of(k) == "int" and not isinstance(k, int):
+                # {i: [] for i in range(n)}[k]: KeyError unless 0 <= k < n
+                self.oblige("dict_key", z3.And(to_z3(k, "int") >= 0, to_z3(k, "int") < to_z3(base.n, "int")),
+                            f"key {ast.unparse(n)[:50]} is one of the keys 0..n-1 of the mapping", n)
             return _ListMapRow(base, k)
         if isinstance(base, _ListMapRow):
             (k,) = idx
@@ -2016,6 +2030,42 @@ def _tag_module_owner(v, name):
         d = SymDict(name, {k: [True, vv] for k, vv in v.items()}, closed=True, owner="module:" + name)
         return d
     return v
+
+
+def mutated_names(body):
+    """names whose OBJECT is written in the body (subscript / attribute stores, mutating method calls, np.put)"""
+    out = set()
+
+    def base_of(t):
+        b = t
+        while isinstance(b, (ast.Subscript, ast.Attribute)):
+            b = b.value
+        return b.id if isinstance(b, ast.Name) else None
+    for s in body:
+        for x in ast.walk(s):
+            tg = []
+            if isinstance(x, ast.Assign):
+                tg = x.targets
+            elif isinstance(x, (ast.AugAssign, ast.AnnAssign)):
+                tg = [x.target]
+            for t in tg:
+                for tt in (t.elts if isinstance(t, (ast.Tuple, ast.List)) else [t]):
+                    if isinstance(tt, (ast.Subscript, ast.Attribute)):
+                        n = base_of(tt)
+                        if n:
+                            out.add(n)
+                    elif isinstance(x, ast.AugAssign) and isinstance(tt, ast.Name):
+                        out.add(tt.id)     # `a += b` mutates a numpy array in place
+            if isinstance(x, ast.Call) and isinstance(x.func, ast.Attribute) and x.func.attr in (
+                    "append", "extend", "sort", "fill", "put", "update", "pop", "insert"):
+                n = base_of(x.func.value)
+                if n:
+                    out.add(n)
+            if isinstance(x, ast.Call) and ast.unparse(x.func) in ("np.put",) and x.args:
+                for y in ast.walk(x.args[0]):
+                    if isinstance(y, ast.Name):
+                        out.add(y.id)
+    return out
 
 
 def modified_names(body):
